@@ -27,7 +27,13 @@ META = {
             "modelled reason => not valid). The checked-in src/xml/generated/* files are compared with the generators' output. XSD, read table, default "
             "table and dm_control generators are NOT modelled: harness parse-back oracles (support only) read their output back and compare element "
             "sets, children, expanded attribute names/order, types, required, defaults, enum keywords, table rows; on generated schemas these "
-            "generators often refuse (they assume element names and C headers of the real schema) and are then counted not-applicable.",
+            "generators often refuse (they assume element names and C headers of the real schema) and are then counted not-applicable. XSD oracle in "
+            "detail: every type/itemType/base reference resolves to a definition of the right kind, kw_/kwlist_/vector simple types are defined exactly "
+            "for what the EXPANDED attributes use and mean what their name says (item type, length bounds), inline restrictions carry the declared "
+            "facets, constraint and cardinality annotations cover the transitively used groups, and the XSD is used as a validator (xmllint): it must "
+            "compile, accept a legal document built from the dumped schema and reject documents with an undeclared attribute/child, a bad keyword, a "
+            "wrong vector length or a missing required attribute. dm_control oracle also checks identifier/reference/path namespaces, repeated and "
+            "on_demand flags. Fixed hand-written strata put every attribute kind behind nested use only.",
     "note": "Trusted: Coq kernel; hand-written model Model/GenTables.v (starts from a canonical dump of the parsed "
             "mjcf_schema.Schema object, dicts as association lists, KeyError/RecursionError as None); the dump code of the "
             "driver; correspondence harness.",
@@ -122,14 +128,14 @@ class SchemaGen:
             t = "int"
             if rng.random() < 0.5:
                 default = " = %d" % rng.randrange(-5, 50)
-            if rng.random() < 0.2:
-                facets.append("min=0")
+            if rng.random() < 0.2 and "-" not in default:      # a default below its own min is accepted by the validator but is not a sensible schema
+                facets.append(rng.choice(["min=0", "min=0, max=100", "max=1000"]))
         elif k in ("double", "float"):
             t = k
             if rng.random() < 0.5:
                 default = " = %s" % rng.choice(["0", "1", "0.5", "-1", "1e-3", "2.5"])
-            if rng.random() < 0.15:
-                facets.append("positive")
+            if rng.random() < 0.15 and default.strip(" =") not in ("0", "-1"):
+                facets.append(rng.choice(["positive", "positive", "min=0.001", "min=0.001, max=1000"]))
         elif k == "vec":
             m = rng.randrange(2, 6)
             t = "double[%d]" % m
@@ -246,6 +252,12 @@ class SchemaGen:
         for nm in enames[1:]:
             if rng.random() < 0.15:
                 aliases[nm] = rng.choice(enames)
+        forced = {}    # parent index -> children that must be listed so that every element is reachable from mujoco
+        for j in range(1, len(enames)):
+            if rng.random() < 0.85:
+                pi = rng.randrange(0, j)
+                if not (pi == 0 and enames[j] == "body" and "worldbody" not in enames):
+                    forced.setdefault(pi, []).append(enames[j])
         body = []
         for idx, nm in enumerate(enames):
             lines, names = [], []
@@ -259,6 +271,8 @@ class SchemaGen:
             kids = []
             if later:
                 kids = rng.sample(later, rng.randrange(0, min(4, len(later)) + 1))
+            kids = [k for k in kids if not (idx == 0 and k == "body" and "worldbody" not in enames)]
+            kids += [k for k in forced.get(idx, []) if k not in kids]
             if idx == 0 and len(enames) > 1 and not kids:
                 kids = [enames[1]]
             if rng.random() < 0.2:
@@ -324,6 +338,87 @@ DEFECTS = [
 ]
 MODELLED_REJECTIONS = ("child cycle", "duplicate attribute", "duplicate child", "group use cycle", "use of undeclared group",
                        "child references undeclared element")
+
+
+# fixed strata: every kind of attribute / constraint reaches elements ONLY through use (direct, nested, shared by two elements,
+# in default context), never by a direct declaration, plus the mirror image (only direct) - emitters that look at an element's own
+# members instead of the expansion differ exactly here
+HAND_SCHEMAS = [
+    """enum color { red = 1  green = 2  blue = 4 }
+enum shape { box = 0  ball = 1  "2d" = 2 }
+group paint {
+  tint : flags<color>
+  gloss : double = 0.5 (positive)
+  code : chars[1..12]
+  exclusive tint gloss
+}
+group deep {
+  use paint
+  kinds : flags<shape> (nodefault)
+  kind : enum<shape> = ball
+  dims : double[1..3]
+  fixed : int[4] = {1, 2, 3, 4}
+  any : float[]
+  level : int = 3 (min=0, max=10)
+  tag : id<thing>
+  requires kind dims
+}
+element mujoco {
+  model : string
+  child default ?
+  child widget *
+  child gadget *
+}
+element default {
+  class : string
+  child default R
+  child widget ?
+}
+element widget : mjsWidget {
+  use deep
+  size : double[1..3]
+  child gadget ?
+}
+element gadget {
+  name : id<gadget>
+  target : ref<thing>
+  use paint
+}
+""",
+    """enum mode { off = 0  on = 1 }
+group only_group {
+  m : enum<mode> = on
+  f : flags<mode>
+}
+element mujoco {
+  child a *
+  child b ?
+}
+element a {
+  f2 : flags<mode>
+  v : double[2] = {0, 1}
+}
+element b {
+  use only_group
+  w : double[3]
+  child a *
+}
+""",
+    """enum e1 { k1 = 1  k2 = 2 }
+enum e2 { p = 0  q = 1 }
+group g_inner { x : flags<e1> (required)
+  y : int[2..5] }
+group g_mid { use g_inner
+  z : bool = true }
+group g_outer { use g_mid
+  u : flags<e2> }
+element mujoco { child top ! }
+element top { use g_outer
+  child leaf * }
+element leaf { use g_inner
+  name : string (nodefault) }
+""",
+]
 
 
 CYCLE_MIN = "element mujoco {\n  child a *\n}\nelement a {\n  x : int\n  child b ?\n}\nelement b {\n  y : int\n  child a ?\n}\n"
@@ -475,8 +570,8 @@ def run(ctx):
     quick = ctx.tier == "quick"
     ctx.coq_props(allowed_axioms=(), extra_targets=["Lib/Eqb.vo", "Model/GenTables.vo"])
 
-    texts = [None, CYCLE_MIN]
-    kinds = ["checked-in", "cycle-min"]
+    texts = [None, CYCLE_MIN] + HAND_SCHEMAS
+    kinds = ["checked-in", "cycle-min"] + ["hand"] * len(HAND_SCHEMAS)
     if ctx.replay and isinstance(ctx.replay.get("case"), dict) and ctx.replay["case"].get("schema_text"):
         texts.append(ctx.replay["case"]["schema_text"])
         kinds.append("replay")
@@ -495,6 +590,11 @@ def run(ctx):
     if resp is None:
         return
     consts = resp["consts"]
+    SCRATCH_DIR[0] = ctx.scratch
+    XSD_COUNTER[0] = 0
+    import glob, shutil
+    for old in glob.glob(os.path.join(ctx.scratch, "xsd_*")):
+        shutil.rmtree(old, ignore_errors=True)
     CONSTS.clear()
     CONSTS.update(consts)
     OTHER_STATS.clear()
@@ -669,13 +769,54 @@ def resolve_hi(hi):
 XS = "{http://www.w3.org/2001/XMLSchema}"
 
 
+SCALAR_XS = {"int": "xs:int", "double": "xs:double", "float": "xs:float", "string": "xs:string", "file": "xs:string"}
+
+
+def _vector_def_ok(st, base, lo, hi):
+    """the named list type must really be a list of the scalar with the declared length bounds"""
+    lst = list(st.iter(XS + "list"))
+    if len(lst) != 1 or lst[0].get("itemType") != SCALAR_XS[base]:
+        return False
+    facets = {x.tag[len(XS):]: x.get("value") for x in st.iter() if x.tag in (XS + "length", XS + "minLength", XS + "maxLength")}
+    if hi is None:
+        exp = {"minLength": str(lo)} if lo > 1 else {}
+    elif lo == hi:
+        exp = {"length": str(hi)}
+    else:
+        exp = {"maxLength": str(hi)}
+        if lo > 0:
+            exp["minLength"] = str(lo)
+    return facets == exp
+
+
 def check_xsd(d, text):
     import xml.etree.ElementTree as ET
     root = ET.fromstring(text)
     if root.tag != XS + "schema":
         return "root is not xs:schema"
     elements = {e["name"]: e for e in d["elements"]}
-    simple = {t.get("name"): t for t in root.findall(XS + "simpleType")}
+    enum_names = [e["name"] for e in d["enums"]]
+    simple = {}
+    for t in root.findall(XS + "simpleType"):
+        if t.get("name") in simple:
+            return "duplicate simpleType %s" % t.get("name")
+        simple[t.get("name")] = t
+    ctypes = {}
+    for t in root.findall(XS + "complexType"):
+        if t.get("name") in ctypes:
+            return "duplicate complexType %s" % t.get("name")
+        ctypes[t.get("name")] = t
+    # (1) every type reference of the document resolves to a definition of the right kind
+    for node in root.iter():
+        for attrname, pool, what in (("type", None, "type"), ("itemType", simple, "itemType"), ("base", simple, "base")):
+            ref = node.get(attrname)
+            if ref is None or ref.startswith("xs:"):
+                continue
+            if attrname == "type":
+                pool = ctypes if node.tag == XS + "element" else simple
+            if ref not in pool:
+                return "%s %r of <%s name=%r> is never defined in the XSD" % (what, ref, node.tag[len(XS):], node.get("name"))
+    # (2) keyword types: one per enum with exactly its keywords; list types exactly for the enums used by a flags attribute
     for en in d["enums"]:
         t = simple.get("kw_" + en["name"])
         if t is None:
@@ -683,17 +824,24 @@ def check_xsd(d, text):
         vals = [x.get("value") for x in t.iter(XS + "enumeration")]
         if vals != [k for k, _ in en["items"]]:
             return "keywords of %s are %r" % (en["name"], vals)
-    for nm in simple:
-        if nm.startswith("kw_") and nm != "kw_bool" and nm[3:] not in [e["name"] for e in d["enums"]]:
+    kb = simple.get("kw_bool")
+    if kb is None or [x.get("value") for x in kb.iter(XS + "enumeration")] != ["false", "true"]:
+        return "kw_bool is not {false, true}"
+    flag_targets = set(a["target"] for e in d["elements"] for a in o_expand(d, e["members"]) if a["type"] == "flags")
+    for nm, t in simple.items():
+        if nm.startswith("kw_") and nm != "kw_bool" and nm[3:] not in enum_names:
             return "simpleType %s for no enum" % nm
-        if nm.startswith("kwlist_") and nm[7:] not in [e["name"] for e in d["enums"]]:
-            return "simpleType %s for no enum" % nm
-    ctypes = {}
-    for t in root.findall(XS + "complexType"):
-        if t.get("name") in ctypes:
-            return "duplicate complexType %s" % t.get("name")
-        ctypes[t.get("name")] = t
-    # expected (element, projected) pairs reachable from mujoco
+        if nm.startswith("kwlist_"):
+            if nm[7:] not in flag_targets:
+                return "simpleType %s although no flags<%s> attribute exists" % (nm, nm[7:])
+            lst = t.find(XS + "list")
+            if lst is None or lst.get("itemType") != "kw_" + nm[7:]:
+                return "%s is not a list of kw_%s" % (nm, nm[7:])
+    for tgt in flag_targets:
+        if "kwlist_" + tgt not in simple:
+            return "flags<%s> is used but kwlist_%s is never defined" % (tgt, tgt)
+    used_vectors = set()
+    # (3) expected (element, projected) pairs reachable from mujoco
     todo, seen = [("mujoco", False)], []
     while todo:
         name, projected = todo.pop(0)
@@ -705,7 +853,8 @@ def check_xsd(d, text):
         t = ctypes.get(tname)
         if t is None:
             return "no complexType %s" % tname
-        kids = [m for m in e["members"] if m["k"] == "child" and not (projected and m["name"] == "plugin")]
+        allkids = [m for m in e["members"] if m["k"] == "child"]
+        kids = [m for m in allkids if not (projected and m["name"] == "plugin")]
         exp_tags = []
         for k in kids:
             target = elements[k["name"]]
@@ -719,6 +868,19 @@ def check_xsd(d, text):
         got = [(x.get("name"), x.get("type")) for x in choice.findall(XS + "element")] if choice is not None else []
         if got != (exp_tags + [("include", "include")] if exp_tags else []):
             return "children of %s are %r, expected %r" % (tname, got[:6], exp_tags[:6])
+        # documentation: constraints (own and of all transitively used groups) and child cardinalities
+        ann = t.find(XS + "annotation")
+        docs = [x.text or "" for x in ann.findall(XS + "documentation")] if ann is not None else []
+        got_cons = sorted(x.split(": ")[-1] for x in docs if x.startswith("constraint: "))
+        exp_cons = sorted(", ".join("+".join(b) for b in c["bundles"]) for c in o_constraints(d, e))
+        if got_cons != exp_cons:
+            return "constraint annotations of %s are %r, expected %r" % (tname, got_cons[:4], exp_cons[:4])
+        carddoc = [x for x in docs if x.startswith("children, with cardinality")]
+        expcards = ", ".join("%s (%s)" % (m["name"], m["card"]) for m in allkids)
+        if allkids and (len(carddoc) != 1 or not carddoc[0].endswith(": " + expcards)):
+            return "cardinality annotation of %s is %r, expected ... %r" % (tname, carddoc[:1], expcards[:80])
+        if not allkids and carddoc:
+            return "cardinality annotation on childless %s" % tname
         attrs = proj_attrs(d, e, projected)
         xa = t.findall(XS + "attribute")
         if [x.get("name") for x in xa] != [a["name"] for a in attrs]:
@@ -732,6 +894,7 @@ def check_xsd(d, text):
             ty = x.get("type")
             numeric_facets = [f for f in ("min", "max", "positive") if f in a["facets"]]
             exp = None
+            inline = x.find(XS + "simpleType")
             if a["type"] == "bool":
                 exp = "kw_bool"
             elif a["type"] == "enum":
@@ -740,27 +903,263 @@ def check_xsd(d, text):
                 exp = "kwlist_" + a["target"]
             elif a["type"] in ("string", "file", "ref", "id"):
                 exp = "xs:string"
+            elif a["type"] == "chars":
+                r = inline.find(XS + "restriction") if inline is not None else None
+                if r is None or r.get("base") != "xs:string":
+                    return "%s.%s chars without string restriction" % (tname, a["name"])
+                fac = {y.tag[len(XS):]: y.get("value") for y in r}
+                if "pattern" in a["facets"]:
+                    want = {"pattern": str(a["facets"]["pattern"])}
+                elif a["lo"] == a["hi"]:
+                    want = {"length": str(a["hi"])}
+                else:
+                    want = {"minLength": str(a["lo"]), "maxLength": str(a["hi"])}
+                if fac != want:
+                    return "%s.%s chars facets %r expected %r" % (tname, a["name"], fac, want)
             elif a["type"] in ("int", "double", "float"):
                 lo, hi = a["lo"], resolve_hi(a["hi"])
                 if (lo, hi) == (1, 1):
-                    exp = None if numeric_facets else {"int": "xs:int", "double": "xs:double", "float": "xs:float"}[a["type"]]
-                elif hi is None:
-                    exp = a["type"] + "list"
-                elif lo == hi:
-                    exp = "%s%s" % (a["type"], hi)
+                    if numeric_facets:
+                        r = inline.find(XS + "restriction") if inline is not None else None
+                        if r is None or r.get("base") != SCALAR_XS[a["type"]]:
+                            return "%s.%s numeric facets without restriction of %s" % (tname, a["name"], SCALAR_XS[a["type"]])
+                        fac = {y.tag[len(XS):]: y.get("value") for y in r}
+                        want = {}
+                        if "min" in a["facets"]:
+                            want["minInclusive"] = fmt_num(float(a["facets"]["min"]))
+                        if "max" in a["facets"]:
+                            want["maxInclusive"] = fmt_num(float(a["facets"]["max"]))
+                        if a["facets"].get("positive"):
+                            want["minExclusive"] = "0"
+                        if fac != want:
+                            return "%s.%s numeric facets %r expected %r" % (tname, a["name"], fac, want)
+                    else:
+                        exp = SCALAR_XS[a["type"]]
                 else:
-                    exp = "%s%sto%s" % (a["type"], lo, hi)
-                if exp and not exp.startswith("xs:") and exp not in simple:
-                    return "vector type %s not declared" % exp
+                    if hi is None:
+                        exp = a["type"] + "list"
+                    elif lo == hi:
+                        exp = "%s%s" % (a["type"], hi)
+                    else:
+                        exp = "%s%sto%s" % (a["type"], lo, hi)
+                    used_vectors.add(exp)
+                    if exp not in simple:
+                        return "%s.%s: vector type %s is never defined" % (tname, a["name"], exp)
+                    if not _vector_def_ok(simple[exp], a["type"], lo, hi):
+                        return "vector type %s is not a list of %s with bounds %s..%s" % (exp, a["type"], lo, hi)
             if ty != exp:
                 return "%s.%s type=%r expected %r" % (tname, a["name"], ty, exp)
-            if exp is None and x.find(XS + "simpleType") is None:
+            if exp is None and inline is None:
                 return "%s.%s has neither type nor inline simpleType" % (tname, a["name"])
     extra = set(ctypes) - {("default_" + n) if p else n for n, p in seen} - {"include"}
     if extra:
         return "complexTypes for nothing in the schema: %r" % sorted(extra)[:5]
+    other_simple = [n for n in simple if not n.startswith(("kw_", "kwlist_")) and n not in used_vectors]
+    if other_simple:
+        return "simpleTypes used by nothing in the schema: %r" % other_simple[:5]
+    top = [x for x in root.findall(XS + "element")]
+    if [(x.get("name"), x.get("type")) for x in top] != [("mujoco", "mujoco")]:
+        return "top-level elements %r" % [(x.get("name"), x.get("type")) for x in top]
     _stat("generate_xsd", "complex_types_checked")
+    return check_xsd_instances(d, text)
+
+
+# ---- the XSD as a validator: it must compile, accept a legal document built from the schema and reject illegal ones
+XMLLINT = None
+
+
+def _find_xmllint():
+    global XMLLINT
+    if XMLLINT is None:
+        import shutil
+        XMLLINT = shutil.which("xmllint") or ("/root/miniconda/bin/xmllint" if os.path.exists("/root/miniconda/bin/xmllint") else "")
+    return XMLLINT
+
+
+def sample_value(d, a, bad=False):
+    enums = {e["name"]: e for e in d["enums"]}
+    t = a["type"]
+    if t == "bool":
+        return "maybe" if bad else "true"
+    if t == "enum":
+        return "no_such_keyword_" if bad else enums[a["target"]]["items"][0][0]
+    if t == "flags":
+        keys = [k for k, _ in enums[a["target"]]["items"]]
+        return (keys[0] + " no_such_keyword_") if bad else " ".join(keys[:2])
+    if t in ("string", "file", "ref", "id"):
+        return "abc"
+    if t == "chars":
+        if "pattern" in a["facets"]:
+            return None
+        n = max(a["lo"], 1)
+        return "x" * ((a["hi"] + 1) if bad else n)
+    lo, hi = a["lo"], resolve_hi(a["hi"])
+    f = a["facets"]
+    v = 1.0
+    if "min" in f:
+        v = max(v, float(f["min"]))
+    if "max" in f and v > float(f["max"]):
+        v = float(f["max"])
+    if f.get("positive") and v <= 0:
+        return None
+    one = str(int(v)) if t == "int" or v == int(v) else repr(v)
+    if bad:
+        if (lo, hi) == (1, 1):
+            return "notanumber"
+        if hi is None:
+            return None if lo <= 1 else " ".join([one] * (lo - 1))
+        return " ".join([one] * (hi + 1))
+    n = 1 if (lo, hi) == (1, 1) else (lo if lo > 0 else 1)
+    return " ".join([one] * n)
+
+
+def build_instance(d, mutate=None):
+    """a legal MJCF document of the schema: every element once (depth-limited), every attribute that has a simple sample value.
+    mutate: None | ('attr', element, attr name) bad value | ('unknown_attr', element) | ('unknown_child', element) | ('missing', element, attr)"""
+    from xml.sax.saxutils import quoteattr
+    elements = {e["name"]: e for e in d["elements"]}
+    out = []
+    state = {"done": False}
+
+    def emit(e, tag, projected, depth, path):
+        attrs = proj_attrs(d, e, projected)
+        parts = ["<" + tag]
+        hit = mutate and not state["done"] and mutate[1] == (e["name"], projected)
+        for a in attrs:
+            if hit and mutate[0] == "missing" and a["name"] == mutate[2]:
+                state["done"] = True
+                continue
+            bad = bool(hit and mutate[0] == "attr" and a["name"] == mutate[2])
+            v = sample_value(d, a, bad=bad)
+            if bad:
+                state["done"] = True
+            if v is None:
+                if a["required"]:
+                    raise ValueError("no sample value for required attribute")
+                continue
+            parts.append("%s=%s" % (a["name"], quoteattr(v)))
+        if hit and mutate[0] == "unknown_attr":
+            parts.append('zz_not_in_schema="1"')
+            state["done"] = True
+        kids = [m for m in e["members"] if m["k"] == "child" and not (projected and m["name"] == "plugin")]
+        inner = []
+        if hit and mutate[0] == "unknown_child":
+            inner.append("<zz_not_in_schema/>")
+            state["done"] = True
+        for k in kids:
+            target, ctag = elements[k["name"]], elements[k["name"]]["xml"]
+            if e["name"] == "mujoco" and k["name"] == "body":
+                if "worldbody" not in elements:
+                    continue
+                target, ctag = elements["worldbody"], "worldbody"
+            cp = projected or (e["name"] == "default" and not k["name"].startswith("default_") and k["name"] != "default")
+            if depth >= 4 or path.count(target["name"]) >= 2:
+                continue
+            inner.append(emit(target, ctag, cp, depth + 1, path + [target["name"]]))
+        if inner:
+            return " ".join(parts) + ">" + "".join(inner) + "</" + tag + ">"
+        return " ".join(parts) + "/>"
+    body = emit(elements["mujoco"], "mujoco", False, 0, ["mujoco"])
+    if mutate and not state["done"]:
+        return None
+    return '<?xml version="1.0"?>\n' + body + "\n"
+
+
+XSD_COUNTER = [0]
+
+
+def check_xsd_instances(d, text):
+    exe = _find_xmllint()
+    if not exe:
+        _stat("generate_xsd", "xmllint_missing")
+        return None
+    XSD_COUNTER[0] += 1
+    work = os.path.join(SCRATCH_DIR[0], "xsd_%d" % XSD_COUNTER[0])
+    os.makedirs(work, exist_ok=True)
+    xsd = os.path.join(work, "s.xsd")
+    with open(xsd, "w", encoding="utf-8") as f:
+        f.write(text)
+    # two children of one parent spelled with the same XML tag (xml= facet collision) make the content model ambiguous for any
+    # validator: then only compile the schema
+    elements_ = {e["name"]: e for e in d["elements"]}
+    ambiguous = False
+    for e in d["elements"]:
+        tags = [("worldbody" if (e["name"] == "mujoco" and m["name"] == "body") else elements_[m["name"]]["xml"])
+                for m in e["members"] if m["k"] == "child"]
+        if len(tags) != len(set(tags)) or "include" in tags:
+            ambiguous = True
+    try:
+        good = None if ambiguous else build_instance(d)
+    except ValueError:
+        good = None
+    if ambiguous:
+        _stat("generate_xsd", "same_tag_siblings_compile_only")
+    docs = []
+    if good:
+        docs.append(("legal", "accept", good, None))
+    # illegal documents: reachable (element, projected) pairs, one mutation each
+    elements = {e["name"]: e for e in d["elements"]}
+    reach = []
+    todo = [("mujoco", False, 0)]
+    while todo:
+        name, projected, depth = todo.pop(0)
+        if (name, projected) in reach or depth > 4:
+            continue
+        reach.append((name, projected))
+        for m in elements[name]["members"]:
+            if m["k"] == "child" and not (projected and m["name"] == "plugin") and not (name == "mujoco" and m["name"] == "body"):
+                cp = projected or (name == "default" and not m["name"].startswith("default_") and m["name"] != "default")
+                todo.append((m["name"], cp, depth + 1))
+    muts = [("unknown_attr", ("mujoco", False)), ("unknown_child", ("mujoco", False))]
+    per_kind = {}
+    for (name, projected) in reach:
+        for a in proj_attrs(d, elements[name], projected):
+            kind = a["type"] if a["type"] in ("enum", "flags", "bool", "chars") else ("vec" if (a["lo"], a["hi"]) != (1, 1) and a["type"] in ("int", "double", "float") else
+                                                                                     ("num" if a["type"] in ("int", "double", "float") else None))
+            if kind and per_kind.get(kind, 0) < 2 and sample_value(d, a, bad=True) is not None:
+                per_kind[kind] = per_kind.get(kind, 0) + 1
+                muts.append(("attr", (name, projected), a["name"]))
+            if a["required"] and per_kind.get("missing", 0) < 1:
+                per_kind["missing"] = 1
+                muts.append(("missing", (name, projected), a["name"]))
+    if good:
+        for mu in muts:
+            try:
+                doc = build_instance(d, mutate=mu)
+            except ValueError:
+                doc = None
+            if doc and doc != good:
+                docs.append(("illegal:%s" % (mu,), "reject", doc, mu))
+    paths = []
+    for i, (label, want, doc, mu) in enumerate(docs):
+        pth = os.path.join(work, "d%d.xml" % i)
+        with open(pth, "w", encoding="utf-8") as f:
+            f.write(doc)
+        paths.append(pth)
+    if not paths:   # still compile the schema: validate a trivial document
+        pth = os.path.join(work, "d0.xml")
+        with open(pth, "w") as f:
+            f.write("<mujoco/>\n")
+        paths.append(pth)
+        docs.append(("compile-only", "any", "<mujoco/>", None))
+    r = subprocess.run([exe, "--noout", "--schema", xsd] + paths, capture_output=True, text=True, timeout=300)
+    err = r.stderr
+    if "failed to compile" in err or "Schemas parser error" in err:
+        line = [l for l in err.split("\n") if "parser error" in l][:1]
+        return "the generated XSD is not a valid XML Schema: %s" % (line[0][-300:] if line else err[-300:])
+    for pth, (label, want, doc, mu) in zip(paths, docs):
+        ok = (pth + " validates") in err
+        bad = (pth + " fails to validate") in err
+        _stat("generate_xsd", "instance_documents_validated")
+        if want == "accept" and not ok:
+            why = [l for l in err.split("\n") if l.startswith(pth) and "error" in l][:1]
+            return "the XSD rejects a legal document of the schema: %s" % (why[0][len(pth):][:300] if why else "?")
+        if want == "reject" and not bad:
+            return "the XSD accepts an illegal document (%s)" % label
     return None
+
+
+SCRATCH_DIR = ["/verif/build/scratch/C42"]
 
 
 def check_dmcontrol(d, text):
@@ -772,9 +1171,30 @@ def check_dmcontrol(d, text):
     exclc = set(tuple(x) for x in CONSTS["EXCLUDED_CHILDREN"])
     idov = set(tuple(x) for x in CONSTS["IDENTIFIER_OVERRIDES"])
 
-    def walk(node, e, tag, projected, parent, depth):
+    ctxns = {tuple(k): v for k, v in CONSTS["CONTEXT_NAMESPACE"]}
+    singles = set(tuple(x) for x in CONSTS["SINGLETONS"])
+
+    def walk(node, e, tag, projected, parent, depth, card="!"):
         if depth > 60:
             return "too deep"
+        # element flags: identifier namespace (from the EXPANDED attributes), repetition, on-demand construction
+        if (parent, e["name"]) in ctxns:
+            ns = ctxns[(parent, e["name"])]
+        elif e["name"] in CONSTS["NAMESPACE_OVERRIDES"]:
+            ns = CONSTS["NAMESPACE_OVERRIDES"][e["name"]]
+        else:
+            ns = None
+            for a in o_expand(d, e["members"]):
+                if a["type"] == "id" or (e["name"], a["name"]) in idov:
+                    ns = a["target"] if a["type"] == "id" else e["name"]
+                    break
+        if node.get("namespace") != (ns if (ns and ns != tag) else None):
+            return "%s/%s namespace=%r, expected %r" % (parent, tag, node.get("namespace"), ns if (ns and ns != tag) else None)
+        topd = e["name"] == "default" and parent == "mujoco"
+        if (node.get("repeated") == "true") != (card in ("*", "R") and not topd and (parent, tag) not in singles):
+            return "%s/%s (card %s) repeated=%r" % (parent, tag, card, node.get("repeated"))
+        if (node.get("on_demand") == "true") != (e["name"] in CONSTS["ON_DEMAND"]):
+            return "%s/%s on_demand=%r" % (parent, tag, node.get("on_demand"))
         if node.tag != "element" or node.get("name") != tag:
             return "element %r where %r expected under %s" % (node.get("name"), tag, parent)
         attrs = proj_attrs(d, e, projected)
@@ -800,11 +1220,11 @@ def check_dmcontrol(d, text):
             elif a["type"] == "bool":
                 ok = ty == "keyword" and x.get("valid_values") == "false true"
             elif a["type"] == "file":
-                ok = ty == "file"
+                ok = ty == "file" and x.get("path_namespace") == CONSTS["FILE_NS"].get(e["name"])
             elif a["type"] == "id":
                 ok = ty == "identifier"
             elif a["type"] == "ref":
-                ok = ty == "reference" and x.get("reference_namespace") is not None
+                ok = ty == "reference" and x.get("reference_namespace") == CONSTS["REF_NS_MAP"].get(a["target"], a["target"])
             elif a["type"] in ("string", "chars", "flags"):
                 ok = ty == "string"
             else:
@@ -826,7 +1246,7 @@ def check_dmcontrol(d, text):
                 continue
             if m["name"] == e["name"]:
                 if top_default:
-                    exp.append((e, tag, projected))
+                    exp.append((e, tag, projected, m["card"]))
                 continue
             target, ctag = elements[m["name"]], elements[m["name"]]["xml"]
             if e["name"] == "mujoco" and m["name"] == "body":
@@ -836,13 +1256,13 @@ def check_dmcontrol(d, text):
             if projected and m["name"] == "plugin":
                 continue
             cp = projected or (e["name"] == "default" and not m["name"].startswith("default_") and m["name"] != "default")
-            exp.append((target, ctag, cp))
+            exp.append((target, ctag, cp, m["card"]))
         cn = node.find("children")
         xc = list(cn) if cn is not None else []
         if len(xc) != len(exp):
-            return "children of %s/%s are %r, expected %r" % (parent, tag, [x.get("name") for x in xc][:8], [t for _, t, _ in exp][:8])
-        for x, (target, ctag, cp) in zip(xc, exp):
-            why = walk(x, target, ctag, cp, e["name"], depth + 1)
+            return "children of %s/%s are %r, expected %r" % (parent, tag, [x.get("name") for x in xc][:8], [t[1] for t in exp][:8])
+        for x, (target, ctag, cp, ccard) in zip(xc, exp):
+            why = walk(x, target, ctag, cp, e["name"], depth + 1, ccard)
             if why:
                 return why
         _stat("generate_dmcontrol", "elements_checked")
